@@ -41,7 +41,7 @@ def resolverOfJson? (j : J) (k : String) : Option ResolverD :=
   match j.get? k with
   | some (.obj kvs) =>
     let r : J := .obj kvs
-    some { inspectable := !(r.boolD "uninspectable"), params := (r.arrD "params").map paramOfJson }
+    some { callable := !(r.boolD "not_callable"), inspectable := !(r.boolD "uninspectable"), params := (r.arrD "params").map paramOfJson }
   | _ => none
 
 def paramToJson (p : ParamD) : J :=
